@@ -130,8 +130,7 @@ package task
 //@   property C04
 //@   opt strings=uf
 //@   pure
-//@   requires t != nil
-//@   ensures l == locked(t)
+//@   ensures t != nil ==> l == locked(t)
 
 //@ func (t *Task) IsClaimable() (c bool)
 //@   property C04
@@ -144,8 +143,7 @@ package task
 //@   property C04
 //@   opt strings=uf
 //@   modifies t.parent
-//@   requires t != nil
-//@   ensures t.parent == parent
+//@   ensures t != nil ==> t.parent == parent
 
 // environment of the role that owns a task (uninterpreted: a function of the parent role)
 //@ ghost func envOfRole(p parentRole) uid.ID
@@ -423,3 +421,31 @@ package task
 //@   on send * : assert n == len(tasks) ; sent = sent + 1
 //@   loop 1 invariant n == #i + 1 && #i >= -1 && #i < len(tasks) && sent == 0
 //@   ensures n == len(tasks) && sent == 1
+
+// ---------------------------------------------------------------------------------------------------------
+// C04: acquiring tasks for an environment. An existing task is re-used only if it is claimable (unowned) at that
+// moment, and at most once per request. The function's own deployment lock is released exactly when it was taken: an
+// Unlock without the Lock is a fatal runtime error that takes the core - and with it the control of every OTHER
+// environment - down (this happened when nothing was left to launch; repaired by a fix: commit).
+//@ func (m *Manager) acquireTasks(envId uid.ID, taskDescriptors Descriptors) (err error)
+//@   property C04
+//@   ghostvar held bool = false
+//@   on call (*sync.Mutex).Lock when recvfield == "deployMu" : assert !held ; held = true
+//@   on call (*sync.Mutex).Unlock when recvfield == "deployMu" : assert held ; held = false
+//@   on mapupdate tasksAlreadyRunning : assert !(key in tasksAlreadyRunning)
+//@   loop 1 invariant !held
+//@   loop 2 invariant !held
+//@   loop 3 invariant !held
+//@   loop 4 invariant !held
+//@   loop 5 invariant !held
+//@   loop 6 invariant !held
+//@   loop 7 invariant held
+//@   loop 8 invariant held
+//@   loop 9 invariant held
+//@   loop 10 invariant held
+//@   loop 11 invariant held
+//@   loop 12 invariant !held
+//@   loop 13 invariant !held
+//@   loop 14 invariant !held
+//@   loop 15 invariant !held
+//@   ensures !held
